@@ -79,7 +79,8 @@ class error_999_visitor(pyx12.error_visitor.error_visitor):
         self.isa_control_num = ('%s%s' % (time.strftime('%y%m%d'),
                                           time.strftime('%H%M')))[1:]
         self.gs_control_num = '%i' % (random.randint(10000000, 999999999))
-        icvn = seg.get_value('ISA12')
+        # This document is a 5010 999: its own interchange version, whatever the (last) source ISA says
+        icvn = '00501'
         isa_seg = pyx12.segment.Segment('ISA*00*          *00*          ',
                                         self.seg_term, self.ele_term, self.subele_term)
         isa_seg.set('05', self._clean(seg.get_value('ISA07'), 2))
